@@ -1025,7 +1025,9 @@ namespace sim
           {
             simfs::Fault f;
             f.path = doc;
-            const int k = static_cast<int>(frng.below(9));
+            int k = static_cast<int>(frng.below(11));
+            if (k >= 9)
+              k = 6; // read errors are worth a larger share: they are the one fault whose handling nothing else exercises
             const long n = static_cast<long>(bytes.size());
             switch (k)
               {
@@ -1072,6 +1074,9 @@ namespace sim
                 case 6:
                   f.kind = simfs::F_EIO;
                   f.a = frng.range(1, 4);
+                  // the error hits in the middle of the document: the reads before it deliver a part of it
+                  if (frng.chance(0.7))
+                    f.b = frng.chance(0.5) ? frng.range(1, 64) : frng.range(64, std::max(65L, n / 2));
                   break;
                 case 7:
                   f.kind = simfs::F_OPEN_FAIL;
